@@ -1,29 +1,30 @@
 #!/bin/bash
 # seed_eval.sh <property> <patch.diff> [<demo_test.go> <package dir> <go test -run pattern>]
-# 1. (optional) confirms the demonstration in a scratch worktree: passes without the patch, fails with it;
-# 2. applies the patch to /repo, runs the property's quick check, and undoes the patch.
-# Evidence and replays of the mutated run go to scratch directories, not to /verif/evidence.
+# Works on a scratch worktree of /repo's HEAD (never on /repo itself):
+# 1. (optional) confirms the demonstration: passes without the patch, fails with it;
+# 2. applies the patch there and runs the property's quick check with VERIF_REPO pointing at the worktree.
+# Evidence and replays of the mutated run go to scratch directories, not to /verif/evidence or /verif/replays.
 set -u
 PROP="$1"; PATCH="$(readlink -f "$2")"; DEMO="${3:-}"; PKG="${4:-}"; RUN="${5:-.}"
+[ -n "$DEMO" ] && DEMO="$(readlink -f "$DEMO")"
 export GOFLAGS=-mod=mod GOPROXY=off GOSUMDB=off GOTOOLCHAIN=local
 cd "$(dirname "$0")/.."
-if [ -n "$(git -C /repo status --porcelain --untracked-files=no)" ]; then
-  echo "refusing to run: /repo has uncommitted changes to tracked files (they would be lost by git checkout)"; exit 2
-fi
+WT=$(mktemp -d /tmp/seedwt.XXXXXX); rmdir "$WT"
+git -C /repo worktree add --detach "$WT" HEAD >/dev/null 2>&1 || { echo "cannot create worktree"; exit 2; }
+trap 'git -C /repo worktree remove --force "$WT" >/dev/null 2>&1' EXIT
 if [ -n "$DEMO" ]; then
-  WT=$(mktemp -d /tmp/seedwt.XXXXXX); rmdir "$WT"
-  git -C /repo worktree add --detach "$WT" HEAD >/dev/null 2>&1 || { echo "cannot create worktree"; exit 2; }
   cp "$DEMO" "$WT/$PKG/zz_seed_demo_test.go"
   (cd "$WT" && go test -count=1 -run "$RUN" "./$PKG/" >/tmp/seed_eval_clean.log 2>&1); CLEAN=$?
-  (cd "$WT" && git apply "$PATCH") || { echo "patch does not apply"; git -C /repo worktree remove --force "$WT"; exit 2; }
-  (cd "$WT" && go build ./... >/tmp/seed_eval_build.log 2>&1); BUILD=$?
+fi
+(cd "$WT" && git apply "$PATCH") || { echo "patch does not apply"; exit 2; }
+if [ -n "$DEMO" ]; then
   (cd "$WT" && go test -count=1 -run "$RUN" "./$PKG/" >/tmp/seed_eval_patched.log 2>&1); PATCHED=$?
-  git -C /repo worktree remove --force "$WT"
+  rm -f "$WT/$PKG/zz_seed_demo_test.go"
+  (cd "$WT" && git checkout -- go.mod go.sum 2>/dev/null)
   echo "demo: clean_exit=$CLEAN patched_exit=$PATCHED (want 0 / non-zero)"
   if [ $CLEAN -ne 0 ] || [ $PATCHED -eq 0 ]; then echo "DEMO-NOT-CONFIRMED"; tail -5 /tmp/seed_eval_clean.log /tmp/seed_eval_patched.log; fi
 fi
-git -C /repo apply "$PATCH" || { echo "patch does not apply to /repo"; exit 2; }
-OUT=$(VERIF_EVIDENCE_DIR=/tmp/seed-evidence ./check "$PROP" --tier quick 2>&1)
-git -C /repo checkout -- .
+OUT=$(VERIF_REPO="$WT" VERIF_EVIDENCE_DIR=/tmp/seed-evidence VERIF_REPLAY_DIR=/tmp/seed-replays ./check "$PROP" --tier quick 2>&1)
 echo "$OUT" | grep -E '^(VIOLATION|OK|KNOWN)' | head -8
 if echo "$OUT" | grep -q '^VIOLATION'; then echo "SEED-DETECTED $PROP"; else echo "SEED-MISSED $PROP"; fi
+rm -rf /tmp/seed-evidence /tmp/seed-replays
